@@ -1,4 +1,5 @@
 import InTotoModel.Lemmas.NoPanic
+import InTotoModel.Lemmas.Fuel
 import InTotoModel.Props.C20
 import InTotoModel.Generated.PanicSites
 /-
@@ -48,6 +49,23 @@ theorem c14_block_verification_never_panics (env : Env K) (ord : Ord) (b : Block
 theorem c14_pae_unpack_never_panics (utf8ok : Bytes → Bool) (bs : Bytes) (s : Nat) :
     Pae.unpack utf8ok bs ≠ .panic s :=
   Pae.c20_unpack_no_panic utf8ok bs s
+
+/-- The recursion into sub-layouts ends, and the model's fuel is no limit of its own: a delegation goes
+    one directory level down (and a directory without files offers no evidence to delegate with), so
+    with fuel beyond the depth of the link directory plus one the complete result - verdict, error
+    stage, summary, inspection commands - is the same for every larger amount.  The model's answer for
+    an exhausted fuel (`err 5` from `verify … 0`) is therefore never an artefact of the fuel chosen. -/
+theorem c14_recursion_ends_with_the_directory_tree (env : Env K) (ord : Ord) (hord : ord.Valid)
+    (path : List Str) (b : Block K) (keys : List K) (dir : Dir K) (name : Str) (fuel : Nat)
+    (hf : dir.depth + 1 ≤ fuel) (extra : Nat) :
+    verify env ord (fuel + extra) path b keys dir name = verify env ord fuel path b keys dir name :=
+  verify_fuel_enough env ord hord path b keys dir name fuel hf extra
+
+/-- (the premise is met: the depth of a directory tree is a number - e.g. the empty directory has depth
+    0, so fuel 1 is enough for it) -/
+example (env : Env K) (ord : Ord) (hord : ord.Valid) (b : Block K) (keys : List K) (name : Str) (extra : Nat) :
+    verify env ord (1 + extra) [] b keys Dir.empty name = verify env ord 1 [] b keys Dir.empty name :=
+  c14_recursion_ends_with_the_directory_tree env ord hord [] b keys Dir.empty name 1 (by simp [depth_empty]) extra
 
 /-- `KeyId::prefix` is total on every string (it takes the first eight characters). -/
 theorem c14_prefix_total (kid : Str) : (prefix8 kid).length ≤ 8 := by
